@@ -258,6 +258,26 @@ class MInterp(Interp):
         super().__init__(dict(cls.module.functions))
         self.cls, self.selfo = cls, selfo
 
+    def e_Attribute(self, n, env):
+        # self.TABLE: a class-level literal of the analysed class (or of a base class in the same module)
+        if isinstance(n.value, ast.Name) and env.get(n.value.id) is self.selfo and n.attr not in getattr(self.selfo, "attrs", {}):
+            from ..loader import ClassInfo  # noqa: F401
+            todo, seen = [self.cls], set()
+            while todo:
+                k = todo.pop(0)
+                if id(k) in seen:
+                    continue
+                seen.add(id(k))
+                if n.attr in k.class_attrs:
+                    v = k.class_attrs[n.attr]
+                    if not any(isinstance(x, (ast.Call, ast.Lambda, ast.Name)) for x in ast.walk(v)):
+                        return self.ev(v, {})
+                    break
+                for b in k.bases:
+                    if b in k.module.classes:
+                        todo.append(k.module.classes[b])
+        return super().e_Attribute(n, env)
+
     def e_Call(self, n, env):
         if isinstance(n.func, ast.Attribute) and isinstance(n.func.value, ast.Name) and env.get(n.func.value.id) is self.selfo \
                 and n.func.attr in self.cls.methods:
